@@ -222,6 +222,10 @@ func payloadFields(id string, task, seq, size int) []log.Field {
 	if seq%3 == 1 {
 		fs = append(fs, log.Object("o", log.Int("a", seq), log.Strings("l", []string{"x", id})))
 	}
+	if (task+seq)%4 == 2 {
+		// a value rendered through reflection (encoding/json), of a size that depends on the call
+		fs = append(fs, log.Reflect("r", map[string]any{"of": strings.ToUpper(id), "pad": pad, "n": []int{task, seq}}))
+	}
 	return fs
 }
 
